@@ -42,7 +42,9 @@ def check_C19(tier, seed):
     out = Outcome("C19", tier, seed)
     run_export_models(out, "C19", [exp_model("export", {1, 2, 3})])
     # the read-back clause on large instances (time grids / item lists far longer than any bounded model reaches)
-    cases = [(150, 3), (20, 140)] if tier == "quick" else [(150, 3), (20, 140), (300, 130), (260, 2), (129, 129)]
+    # (sizes chosen around representation limits: > 127 / > 255 items, 1 700 - 2 300 and > 32 767 entries)
+    cases = [(150, 3), (20, 140), (150, 13), (128, 2)] if tier == "quick" else \
+        [(150, 3), (20, 140), (150, 13), (128, 2), (300, 130), (260, 2), (129, 129), (256, 8), (1000, 40)]
     bad = core.replay_parallel(replay_export.run_large_export, cases)
     out.replayed += len(cases)
     out.extra["large_instance_exports"] = len(cases)
